@@ -5,7 +5,9 @@ package webrtc
 // Domain: sequential histories on a real loopback pair A, B: AddTrack, RemoveTrack,
 // AddTransceiverFromKind, CreateDataChannel, single steps of an offer/answer exchange
 // (CreateOffer, SetLocal(offer), SetRemote(offer), CreateAnswer, SetLocal(answer),
-// SetRemote(answer)) initiated by either side, whole exchanges, Close.  After every op the
+// SetRemote(answer)) initiated by either side, provisional-answer steps on renegotiations (the
+// answerer applies its created answer as pranswer, the offerer applies it as pranswer, the final
+// answer follows), whole exchanges, Close.  After every op the
 // harness drains the operations queue of both peers (pc.ops.Done() repeated until the queue,
 // its worker and the "update on empty chain" flag are all quiet) — that is the property's
 // precondition "each call's queued work finishes before the next call".  The only window in
@@ -54,7 +56,7 @@ import (
 )
 
 type vfC04Op struct {
-	K string `json:"k"` // addTrack | removeTrack | addTr | addDC | step | exchange | close
+	K string `json:"k"` // addTrack | removeTrack | addTr | addDC | step | stepPr | exchange | close
 	X int    `json:"x"` // peer (initiator for step/exchange when none is in progress)
 	A int    `json:"a,omitempty"`
 }
@@ -195,6 +197,7 @@ func vfC04Run(v *vfT, c vfC04Case) {
 	// exchange in progress: initiator, next phase (0..5)
 	exI, exPhase := -1, 0
 	var exOffer, exAnswer SessionDescription
+	prLocal, prRemote := false, false // this exchange: provisional answer applied by the answerer / by the offerer
 	connected := false
 	opsWhileUnstable := 0
 	completedExchanges := 0
@@ -245,6 +248,7 @@ func vfC04Run(v *vfT, c vfC04Case) {
 	step := func(initiator int) bool {
 		if exI < 0 {
 			exI, exPhase = initiator, 0
+			prLocal, prRemote = false, false
 		}
 		I, R := ps[exI], ps[1-exI]
 		if I.closeCalled.Load() || R.closeCalled.Load() {
@@ -299,7 +303,7 @@ func vfC04Run(v *vfT, c vfC04Case) {
 		case 4:
 			at := clock.Add(1)
 			gathered := GatheringCompletePromise(R.pc)
-			if err = R.pc.SetLocalDescription(exAnswer); err == nil {
+			if err = R.pc.SetLocalDescription(SessionDescription{Type: SDPTypeAnswer, SDP: exAnswer.SDP}); err == nil {
 				select {
 				case <-gathered:
 				case <-time.After(10 * time.Second):
@@ -350,6 +354,49 @@ func vfC04Run(v *vfT, c vfC04Case) {
 
 	// The answerer's queue is parked in a transport start (ICE/DTLS of the first exchange, SCTP of
 	// the first exchange that negotiates data channels) until the offerer has applied the answer.
+	// prStep: one provisional-answer step of a RENEGOTIATION whose answer has been created: first the
+	// answerer applies the created answer as pranswer (-> have-local-pranswer), then the offerer
+	// applies that text as pranswer (-> have-remote-pranswer).  The final answer follows through the
+	// ordinary steps 4 and 5.  Anything else falls back to an ordinary step.  (On a first
+	// negotiation pranswer is not used: the transports would be started from a provisional answer.)
+	prStep := func(initiator int) bool {
+		if exI < 0 || exPhase != 4 || !connected || (prLocal && prRemote) {
+			return step(initiator)
+		}
+		I, R := ps[exI], ps[1-exI]
+		if I.closeCalled.Load() || R.closeCalled.Load() {
+			exI = -1
+			return false
+		}
+		var err error
+		if !prLocal {
+			touch(R)
+			err = R.pc.SetLocalDescription(SessionDescription{Type: SDPTypePranswer, SDP: exAnswer.SDP})
+			prLocal = err == nil
+			if err == nil {
+				v.Label("pranswer:local-applied")
+			}
+		} else {
+			touch(I)
+			d := R.pc.PendingLocalDescription()
+			if d == nil {
+				return step(initiator)
+			}
+			err = I.pc.SetRemoteDescription(SessionDescription{Type: SDPTypePranswer, SDP: d.SDP})
+			prRemote = err == nil
+			if err == nil {
+				v.Label("pranswer:remote-applied")
+			}
+		}
+		if err != nil {
+			v.Label("pranswer-step-failed")
+			v.Logf("C04 pranswer step failed: %v", err)
+			exI = -1
+			return false
+		}
+		return true
+	}
+
 	drainable := func(p *vfC04Peer) bool { return !p.parked }
 
 	for i, op := range c.Ops {
@@ -357,7 +404,7 @@ func vfC04Run(v *vfT, c vfC04Case) {
 		p := ps[x]
 		unstable := ps[0].pc.SignalingState() != SignalingStateStable || ps[1].pc.SignalingState() != SignalingStateStable
 		skipped := false
-		if op.K != "step" && op.K != "exchange" && !p.closeCalled.Load() {
+		if op.K != "step" && op.K != "stepPr" && op.K != "exchange" && !p.closeCalled.Load() {
 			touch(p)
 		}
 		switch op.K {
@@ -438,6 +485,8 @@ func vfC04Run(v *vfT, c vfC04Case) {
 			}
 		case "step":
 			step(x)
+		case "stepPr":
+			prStep(x)
 		case "exchange":
 			for k := 0; k < 6; k++ {
 				if !step(x) || exI < 0 {
@@ -458,7 +507,10 @@ func vfC04Run(v *vfT, c vfC04Case) {
 		if skipped {
 			continue
 		}
-		if unstable && op.K != "step" && op.K != "exchange" {
+		if unstable && op.K != "step" && op.K != "stepPr" && op.K != "exchange" {
+			if st := p.pc.SignalingState(); st == SignalingStateHaveLocalPranswer || st == SignalingStateHaveRemotePranswer {
+				v.Label("change-while-in:" + st.String())
+			}
 			opsWhileUnstable++
 		}
 
@@ -601,7 +653,7 @@ func TestVerif_C04_Histories(t *testing.T) {
 		},
 	}, func(v *vfT) vfC04Case {
 		n := rapid.IntRange(1, maxLen).Draw(v.R, "n")
-		kinds := []string{"addTrack", "addTrack", "removeTrack", "addTr", "addTr", "addDC", "step", "step", "step", "step", "step", "step", "step", "step", "exchange", "exchange"}
+		kinds := []string{"addTrack", "addTrack", "removeTrack", "addTr", "addTr", "addDC", "step", "step", "step", "step", "step", "step", "step", "stepPr", "stepPr", "exchange", "exchange"}
 		var c vfC04Case
 		if rapid.IntRange(0, 3).Draw(v.R, "template") == 0 {
 			// a need that the peer's offer cannot satisfy: X adds a transceiver/track of one kind, Y
@@ -618,6 +670,36 @@ func TestVerif_C04_Histories(t *testing.T) {
 				c.Ops = append(c.Ops, vfC04Op{K: "addTrack", X: 1 - x, A: 1 - kind})
 			}
 			c.Ops = append(c.Ops, vfC04Op{K: "exchange", X: 1 - x})
+		}
+		if len(c.Ops) == 0 && rapid.IntRange(0, 2).Draw(v.R, "templatePr") == 0 {
+			// a renegotiation through a provisional answer with a change made while a peer sits in
+			// have-local-pranswer / have-remote-pranswer: connect, re-offer up to the created answer,
+			// pranswer on the answerer (and maybe the offerer), change, finish
+			x := rapid.IntRange(0, 1).Draw(v.R, "px")
+			change := func(on int) vfC04Op {
+				return vfC04Op{K: rapid.SampledFrom([]string{"addTr", "addTrack", "addDC", "removeTrack"}).Draw(v.R, "pk"), X: on, A: rapid.IntRange(0, 3).Draw(v.R, "pa")}
+			}
+			c.Ops = append(c.Ops, vfC04Op{K: rapid.SampledFrom([]string{"addTr", "addTrack", "addDC"}).Draw(v.R, "pk0"), X: x, A: rapid.IntRange(0, 3).Draw(v.R, "pa0")},
+				vfC04Op{K: "exchange", X: x})
+			y := x
+			if rapid.Bool().Draw(v.R, "pOtherInitiator") {
+				y = 1 - x
+			}
+			c.Ops = append(c.Ops, change(y))
+			for k := 0; k < 4; k++ {
+				c.Ops = append(c.Ops, vfC04Op{K: "step", X: y})
+			}
+			c.Ops = append(c.Ops, vfC04Op{K: "stepPr", X: y})
+			if rapid.Bool().Draw(v.R, "pChangeOnAnswerer") {
+				c.Ops = append(c.Ops, change(1-y))
+			}
+			if rapid.Bool().Draw(v.R, "pRemote") {
+				c.Ops = append(c.Ops, vfC04Op{K: "stepPr", X: y}, change(y))
+			}
+			if rapid.Bool().Draw(v.R, "pChangeOnAnswerer2") {
+				c.Ops = append(c.Ops, change(1-y))
+			}
+			c.Ops = append(c.Ops, vfC04Op{K: "exchange", X: y})
 		}
 		for i := 0; i < n; i++ {
 			op := vfC04Op{K: rapid.SampledFrom(kinds).Draw(v.R, "k"), X: rapid.IntRange(0, 1).Draw(v.R, "x"), A: rapid.IntRange(0, 3).Draw(v.R, "a")}
